@@ -114,11 +114,14 @@ class TAbs(TRef):
     ``fields``: attributes whose reads are pure and whose writes store faithfully (+ a store event);
     ``methods``: name -> abstract contract (see contracts.Abstract)"""
 
-    def __init__(self, name, fields=None, methods=None, events=True):
+    def __init__(self, name, fields=None, methods=None, events=True, optional=None):
         self.name = name
         self.fields = fields or {}
         self.methods = methods or {}
         self.events = events
+        # attributes the object MAY have (heap fields `has:<name>` / `<name>`): reading an absent one is an AttributeError,
+        # a store creates it
+        self.optional = optional or {}
 
     def describe(self):
         return "Abs(%s)" % self.name
